@@ -65,7 +65,7 @@ func enumC128(c *core.Ctx, classLen, fullLen, macroLen int) {
 
 func c05Body(c *core.Ctx) {
 	defer seqPairs(c, "c128")
-	cl, fl, ml := pick(c, 6, 8), pick(c, 2, 3), pick(c, 5, 6)
+	cl, fl, ml := pick(c, 7, 8), pick(c, 2, 3), pick(c, 5, 6)
 	enumC128(c, cl, fl, ml)
 	c.R.Bound("class_words", fmt.Sprintf("all words <= %d over %q", cl, c128Class))
 	c.R.Bound("full_alphabet_words", fmt.Sprintf("all words <= %d over 134 letters (ASCII 0..127, FNC1-4, 'ä', 0xFF)", fl))
@@ -191,10 +191,13 @@ func enumC39C93(c *core.Ctx, fams []string, wordLen int) {
 			for full := 0; full <= 1; full++ {
 				P := []int{ck, full}
 				alpha := c39BasicAlpha()
+				wl := wordLen
 				if full == 1 {
 					alpha = c39FullAlpha()
+				} else if wl == 2 {
+					wl = 3 // the basic alphabet is small enough for all words of length 3 in every tier
 				}
-				Words(alpha, 0, wordLen, func(w string, _ int) bool {
+				Words(alpha, 0, wl, func(w string, _ int) bool {
 					Run(c, &core.Case{Fam: fam, S: []byte(w), P: P})
 					return true
 				})
@@ -232,7 +235,7 @@ func c07Body(c *core.Ctx) {
 	defer seqPairs(c, "c39", "c93")
 	wl := pick(c, 2, 3)
 	enumC39C93(c, []string{"c39", "c93"}, wl)
-	c.R.Bound("words", fmt.Sprintf("all words <= %d over the full alphabet (basic: 43 characters + '*' + FNC1-4 + 'a','é',0xFF; full ASCII: 0..127 + 'é',0x80) x includeChecksum x fullASCII x {Code 39, Code 93}", wl))
+	c.R.Bound("words", fmt.Sprintf("all words <= %d (basic alphabet: <= 3) over the full alphabet (basic: 43 characters + '*' + FNC1-4 + 'a','é',0xFF; full ASCII: 0..127 + 'é',0x80) x includeChecksum x fullASCII x {Code 39, Code 93}", wl))
 	c.R.Bound("weight_period", "lengths 14,15,16,19,20,21,22,40,41,42 with one foreign character at every position (all characters) and two at every position pair")
 	for _, s := range []string{"Code 39", "Code 93"} {
 		for _, o := range []string{"plain", "check", "fullascii", "fullascii+check"} {
